@@ -889,13 +889,13 @@ class Exec:
                 except (IndexError, KeyError) as e:
                     yield st, ("raise", self.new_builtin_exc(st, type(e).__name__, [str(e)])); return
             elif isinstance(base, UFL) and isinstance(idx, (int, Sym)) and not isinstance(idx, bool):
-                # del on a UF list held in a local / attribute: rebind the target (no aliasing assumed, as for append)
+                # del on a UF list held in a local / attribute: the target is re-bound, and so is every alias (a caller's list handed to a helper)
                 k = lift(idx).z; n0 = base.length; pos = z3.If(k < 0, n0 + k, k)
                 if feasible(st.pc, z3.Or(pos < 0, pos >= n0)):
                     sb = st.copy(); sb.pc.append(z3.Or(pos < 0, pos >= n0)); yield sb, ("raise", self.new_builtin_exc(sb, "IndexError", ["list assignment index out of range"]))
                 st.pc.append(z3.And(pos >= 0, pos < n0))
                 new = UFL(base.elem_ty, (lambda i, r=base, pos=pos: z3.If(i < pos, r.at(i), r.at(i + 1))), n0 - 1)
-                for s2, _ in self.assign(st, tgt.value, new): st = s2
+                for s2, _ in self.mutate(st, tgt.value, base, new): st = s2
             else: raise Unsupported("del on a symbolic container")
         yield st, ("next",)
     def st_Pass(self, node, st): yield st, ("next",)
@@ -1022,7 +1022,10 @@ class Exec:
                         r = dflt
                         for k in reversed(range(len(items))): r = z3.If(i == k, items[k], r)
                         return r
-                    v = UFL(hint.args[0], at, z3.IntVal(len(items)))
+                    as_list = v; v = UFL(hint.args[0], at, z3.IntVal(len(items)))
+                    for fr in s.frames:          # a local holding the same list object goes on naming the same container
+                        for k_, x_ in fr.env.items():
+                            if x_ is as_list: fr.env[k_] = v
                 s.heap[base.oid][tgt.attr] = v
                 yield s, ("next",)
             return
@@ -1241,7 +1244,11 @@ class Exec:
             elif "." in var:
                 base, attr = var.rsplit(".", 1)
                 obj = self.spec_value(base, head)
-                v, cons = fresh(ty, var.replace(".", "_")); head.heap[obj.oid][attr] = v
+                v, cons = fresh(ty, var.replace(".", "_")); was = head.heap[obj.oid].get(attr); head.heap[obj.oid][attr] = v
+                if isinstance(was, (UFL, UFDict, list, dict)):       # a local alias of the container (`items = self.items` before the loop) stays an alias
+                    for fr in head.frames:
+                        for k_, x_ in fr.env.items():
+                            if x_ is was: fr.env[k_] = v
             else:
                 v, cons = fresh(ty, var); henv[var] = v
             head.pc.extend(cons)
@@ -1312,6 +1319,9 @@ class Exec:
             if k not in snap["env"]:
                 continue        # new local defined in body: dead after iteration unless used later (then Unsupported name)
             if snap["env"][k] is not v and not same_value(snap["env"][k], v):
+                if isinstance(v, (UFL, UFDict)) and any(x is v and any(h.endswith("." + a) for h in spec.havoc) for obj in st.heap.values() for a, x in obj.items()):
+                    continue      # an alias of an attribute the loop contract does list
+                if os.environ.get("VF_DEBUG"): print("DEBUG frame:", k, type(snap["env"][k]).__name__, type(v).__name__, [(a, type(x).__name__, x is v) for obj in st.heap.values() for a, x in obj.items() if a == k])
                 raise Unsupported("loop %s modifies %s which is not in havoc set" % (name, k))
         for oid, obj in st.heap.items():
             old = snap["heap"].get(oid)
